@@ -78,7 +78,7 @@ def run_case(spec):
     if rng.random() < 0.6:
         for name in REG_CLASSES:
             if rng.random() < 0.3:
-                regs[name] = rng.choice(["ok", "raise", "raise", "raise_badstr", "hostile"])
+                regs[name] = rng.choice(["ok", "raise", "raise", "raise_badstr", "hostile", "raise_pool", "raise_pool"])
     ext_calls = {"n": 0}
 
     def make_extractor(name, kind):
@@ -90,6 +90,11 @@ def run_case(spec):
             if kind == "raise_badstr":
                 fired["extractor"] += 1
                 raise ExtractorBoomBadStr()
+            if kind == "raise_pool":
+                # fails with an exception class that other (possibly also failing) extractors are registered for
+                fired["extractor"] += 1
+                raise excs.make(random.Random(name).choice(["ValueError", "KeyError", "UserError", "DeepUserError", "OSError", "RuntimeError", "BadStr"]),
+                                "extractor for %s failed" % name)
             if kind == "hostile":
                 return {"ext": faults.hostile_value(random.Random(ext_calls["n"]))}
             return {"ext_" + name: name}
